@@ -511,69 +511,6 @@ func rulesC04(w *World, r *Report) {
 
 func stripHex(s string) string { return s }
 
-// ruleHolderChange: (*_refHolder).change records the new slice on every path.
-// Exception (one symbol, one reason): a path guarded by a true CanAddr() test
-// is dead, because the values the decoder hands to change come from
-// reflect.MakeSlice / reflect.Append / reflect.ValueOf and are never addressable.
-func (w *World) ruleHolderChange(r *Report, rule string) {
-	fn := w.fn("(*_refHolder).change")
-	if fn == nil {
-		r.undecided(rule, "(*_refHolder).change", "-", "anchor not found")
-		return
-	}
-	storeBlock := map[*ssa.BasicBlock]bool{}
-	for _, b := range fn.Blocks {
-		for _, in := range b.Instrs {
-			if st, ok := in.(*ssa.Store); ok {
-				if fa, ok := st.Addr.(*ssa.FieldAddr); ok && typeStr(st.Val.Type()) == "reflect.Value" {
-					if _, isParam := st.Val.(*ssa.Parameter); isParam {
-						_ = fa
-						storeBlock[b] = true
-					}
-				}
-			}
-		}
-	}
-	ok := len(storeBlock) > 0
-	fact := "the new slice value is stored on every live path"
-	seen := map[[2]int]bool{}
-	var walk func(b *ssa.BasicBlock, dead bool)
-	walk = func(b *ssa.BasicBlock, dead bool) {
-		k := [2]int{b.Index, 0}
-		if dead {
-			k[1] = 1
-		}
-		if seen[k] || storeBlock[b] {
-			return
-		}
-		seen[k] = true
-		switch t := b.Instrs[len(b.Instrs)-1].(type) {
-		case *ssa.Return:
-			if !dead {
-				ok = false
-				fact = "a return at " + w.instrPos(t) + " is reachable without recording the new slice (and not behind a CanAddr() test): after an append that kept the backing array the holder keeps the old, shorter slice"
-			}
-		case *ssa.If:
-			isCanAddr := false
-			if c, isC := t.Cond.(*ssa.Call); isC && c.Call.StaticCallee() != nil && qualifiedFnName(c.Call.StaticCallee()) == "(reflect.Value).CanAddr" {
-				isCanAddr = true
-			}
-			walk(b.Succs[0], dead || isCanAddr)
-			walk(b.Succs[1], dead)
-		default:
-			for _, s2 := range b.Succs {
-				walk(s2, dead)
-			}
-		}
-	}
-	if ok {
-		walk(fn.Blocks[0], false)
-	} else {
-		fact = "no store of the parameter into the holder found"
-	}
-	r.add(rule, "(*_refHolder).change · records the new slice on every live path", w.pos(fn.Pos()), ok, fact)
-}
-
 // ruleRefBinding (C04.R5): identity of referenced containers.
 //  (a) ConvertSliceValueType unpacks a pointer element only when the
 //      destination element kind is not a pointer (otherwise SetValue re-packs a
@@ -955,69 +892,4 @@ func (w *World) ruleObjectIndexForms(r *Report, rule string) {
 	w.ruleCompactHeaders(r, rule, wo, 0x60, 0x6f)
 	// readers bounds-check the index
 	w.ruleIndexGuardsPX(r, rule, []string{"(*Decoder).ReadLenTagObject", "(*Decoder).readTagObject"})
-}
-
-// ruleIndexGuards: every element access on a per-stream table of the Decoder
-// in the named functions (or all decoder functions when names is nil) is
-// guarded two-sidedly.
-func (w *World) ruleIndexGuards(r *Report, rule string, names []string) {
-	want := map[string]bool{}
-	for _, n := range names {
-		want[n] = true
-	}
-	n := 0
-	for _, fn := range w.SrcFuncs() {
-		if names != nil && !want[fnName(fn)] {
-			continue
-		}
-		if names == nil {
-			recv := fn.Signature.Recv()
-			if recv == nil || !(namedIs(recv.Type(), hessianPath, "Decoder") || namedIs(recv.Type(), hessianPath, "Encoder")) {
-				continue
-			}
-		}
-		f := w.flow(fn)
-		cnt := 0
-		for _, b := range fn.Blocks {
-			for _, in := range b.Instrs {
-				ia, ok := in.(*ssa.IndexAddr)
-				if !ok {
-					continue
-				}
-				owner, fld, ok := w.fieldOfLoad(ia.X)
-				if !ok || (owner != "Decoder" && owner != "Encoder") {
-					continue
-				}
-				if _, isSl := ia.X.Type().Underlying().(*types.Slice); !isSl {
-					continue
-				}
-				n++
-				cnt++
-				env := f.At(b)
-				it := f.term(ia.Index)
-				I, _ := f.Eval(it, env)
-				lower := I != nil && !I.Empty() && I.Min().Sign() >= 0
-				lenKey := "len(" + f.term(ia.X).Key() + ")"
-				upper := false
-				for _, probe := range []struct {
-					k string
-					v int64
-				}{
-					{"(" + it.Key() + " >= " + lenKey + ")", 0}, {"(" + it.Key() + " < " + lenKey + ")", 1},
-					{"(" + lenKey + " <= " + it.Key() + ")", 0}, {"(" + lenKey + " > " + it.Key() + ")", 1},
-				} {
-					if s, has := env[probe.k]; has && s.Equal(single(probe.v)) {
-						upper = true
-					}
-				}
-				r.add(rule, fmt.Sprintf("%s · index #%d into %s.%s", fnName(fn), cnt, owner, w.fieldName(owner, fld)), w.instrPos(ia), lower && upper,
-					fmt.Sprintf("index %s ∈ %s: lower bound proven=%v, dominated by a test against %s=%v", it.Key(), I, lower, lenKey, upper))
-			}
-		}
-	}
-	min := 2
-	if names == nil {
-		min = 4
-	}
-	r.floor(rule+" (table index uses)", n, min)
 }
